@@ -50,7 +50,9 @@ fn segs_touch(s: Seg, t: Seg) -> bool {
     // closed segments share a point (exact)
     let (d1, d2) = (orient(s.0, s.1, t.0), orient(s.0, s.1, t.1));
     let (d3, d4) = (orient(t.0, t.1, s.0), orient(t.0, t.1, s.1));
-    if ((d1 > 0.0 && d2 < 0.0) || (d1 < 0.0 && d2 > 0.0)) && ((d3 > 0.0 && d4 < 0.0) || (d3 < 0.0 && d4 > 0.0)) {
+    if ((d1 > 0.0 && d2 < 0.0) || (d1 < 0.0 && d2 > 0.0))
+        && ((d3 > 0.0 && d4 < 0.0) || (d3 < 0.0 && d4 > 0.0))
+    {
         return true;
     }
     on_segment(t.0, s) || on_segment(t.1, s) || on_segment(s.0, t) || on_segment(s.1, t)
@@ -84,14 +86,25 @@ fn strictly_inside_tri(p: P, t: &[P]) -> bool {
 
 impl Table {
     /// n points in [0,1)^2 * scale, hashed from the seed; regenerated until in general position
-    pub fn new(name: &str, seed: u64, n: usize, scale: f64, as_f32: bool, max_twopart: usize) -> Table {
+    pub fn new(
+        name: &str,
+        seed: u64,
+        n: usize,
+        scale: f64,
+        as_f32: bool,
+        max_twopart: usize,
+    ) -> Table {
         let mut st = seed.wrapping_mul(0x2545F4914F6CDD1D) ^ (n as u64) << 32 ^ scale.to_bits();
         let pts = loop {
             let mut pts: Vec<P> = vec![];
             for _ in 0..n {
                 let x = (splitmix(&mut st) >> 11) as f64 / (1u64 << 53) as f64 * scale;
                 let y = (splitmix(&mut st) >> 11) as f64 / (1u64 << 53) as f64 * scale;
-                pts.push(if as_f32 { (x as f32 as f64, y as f32 as f64) } else { (x, y) });
+                pts.push(if as_f32 {
+                    (x as f32 as f64, y as f32 as f64)
+                } else {
+                    (x, y)
+                });
             }
             let mut ok = true;
             'o: for i in 0..n {
@@ -127,7 +140,12 @@ impl Table {
         let mut ops = vec![];
         let mk = |kind: Kind, idx: Vec<usize>, mp: MP| {
             let edges = mp_edges(&mp);
-            Operand { kind, idx, mp, edges }
+            Operand {
+                kind,
+                idx,
+                mp,
+                edges,
+            }
         };
         // triangles
         let mut tris: Vec<Vec<usize>> = vec![];
@@ -139,7 +157,11 @@ impl Table {
             }
         }
         for t in &tris {
-            ops.push(mk(Kind::Tri, t.clone(), MultiPolygon(vec![poly_from(&ring(t, &pts), &[])])));
+            ops.push(mk(
+                Kind::Tri,
+                t.clone(),
+                MultiPolygon(vec![poly_from(&ring(t, &pts), &[])]),
+            ));
         }
         let n_tri = ops.len();
         // quadrilaterals: the three cyclic orders of every 4-subset
@@ -152,10 +174,18 @@ impl Table {
                             let cross1 = proper_cross((r[0], r[1]), (r[2], r[3]));
                             let cross2 = proper_cross((r[1], r[2]), (r[3], r[0]));
                             if cross1 || cross2 {
-                                ops.push(mk(Kind::Bowtie, ord.to_vec(), MultiPolygon(vec![poly_from(&r, &[])])));
+                                ops.push(mk(
+                                    Kind::Bowtie,
+                                    ord.to_vec(),
+                                    MultiPolygon(vec![poly_from(&r, &[])]),
+                                ));
                             } else {
                                 let o = ccw(ord.to_vec(), &pts);
-                                ops.push(mk(Kind::Quad, o.clone(), MultiPolygon(vec![poly_from(&ring(&o, &pts), &[])])));
+                                ops.push(mk(
+                                    Kind::Quad,
+                                    o.clone(),
+                                    MultiPolygon(vec![poly_from(&ring(&o, &pts), &[])]),
+                                ));
                             }
                         }
                     }
@@ -175,7 +205,11 @@ impl Table {
                     hole.reverse(); // holes clockwise
                     let mut idx = t.clone();
                     idx.extend(h.iter().rev());
-                    ops.push(mk(Kind::Holed, idx, MultiPolygon(vec![poly_from(&tr, &[hole])])));
+                    ops.push(mk(
+                        Kind::Holed,
+                        idx,
+                        MultiPolygon(vec![poly_from(&tr, &[hole])]),
+                    ));
                 }
             }
         }
@@ -201,10 +235,19 @@ impl Table {
                 cnt += 1;
                 let mut idx = t.clone();
                 idx.extend(h.iter());
-                ops.push(mk(Kind::TwoPart, idx, MultiPolygon(vec![poly_from(&tr, &[]), poly_from(&hr, &[])])));
+                ops.push(mk(
+                    Kind::TwoPart,
+                    idx,
+                    MultiPolygon(vec![poly_from(&tr, &[]), poly_from(&hr, &[])]),
+                ));
             }
         }
-        Table { name: name.into(), pts, ops, n_tri }
+        Table {
+            name: name.into(),
+            pts,
+            ops,
+            n_tri,
+        }
     }
 
     /// the self-crossing restriction of DESIGN 3.3: a bow-tie is only paired with operands that
